@@ -61,29 +61,49 @@ def load_findings(pid: str) -> list[dict]:
     return [e for e in data.get("findings", []) if e.get("property") == pid and e.get("status") == "finding"]
 
 
+def _entry_matches_atom(e, atom: str, v, triggers) -> bool:
+    subs = e.get("subchecks") or ([e["subcheck"]] if e.get("subcheck") else None)
+    if subs and v.get("subcheck") not in subs:
+        return False
+    if "descriptor" in e:
+        if e["descriptor"] != atom:
+            return False
+    elif e.get("descriptor_re"):
+        if not re.match(e["descriptor_re"], atom):
+            return False
+    else:
+        return False
+    trig = e.get("trigger")
+    if trig:
+        fn = triggers.get(trig)
+        if fn is None:
+            return False
+        try:
+            if not fn(v.get("case"), v):
+                return False
+        except Exception:
+            return False
+    return True
+
+
 def match_finding(entries, v, triggers):
-    for e in entries:
-        subs = e.get("subchecks") or ([e["subcheck"]] if e.get("subcheck") else None)
-        if subs and v.get("subcheck") not in subs:
-            continue
-        if "descriptor" in e and e.get("descriptor") != v.get("descriptor"):
-            continue
-        if e.get("descriptor_re") and not re.match(e["descriptor_re"], str(v.get("descriptor"))):
-            continue
-        if "descriptor" not in e and not e.get("descriptor_re"):
-            continue
-        trig = e.get("trigger")
-        if trig:
-            fn = triggers.get(trig)
-            if fn is None:
-                continue
-            try:
-                if not fn(v.get("case"), v):
-                    continue
-            except Exception:
-                continue
-        return e
-    return None
+    """A violation is a known finding iff EVERY atomic difference it consists of (v['atoms'], default: its
+    descriptor) is covered by a listed finding whose trigger predicate accepts the case.  One uncovered atom
+    (= a second, different defect in the same case) makes it a new violation."""
+    atoms = v.get("atoms") or [v.get("descriptor")]
+    ids = []
+    for atom in atoms:
+        hit = next((e for e in entries if _entry_matches_atom(e, str(atom), v, triggers)), None)
+        if hit is None:
+            return None
+        if hit["id"] not in ids:
+            ids.append(hit["id"])
+    if not ids:
+        return None
+    first = next(e for e in entries if e["id"] == ids[0])
+    if len(ids) == 1:
+        return first
+    return {"id": "+".join(sorted(ids)), "what": "combination of listed findings: " + "; ".join(sorted(ids))}
 
 
 def write_replay(pid: str, v: dict) -> str:
@@ -185,7 +205,8 @@ def main(argv: list[str]) -> int:
     by_id = {e["id"]: e for e in entries}
     for fid, vs in sorted(known.items()):
         wit = write_replay(pid, vs[0])
-        print(f"KNOWN-FINDING: property={pid} {fid} {by_id[fid]['what']} ({len(vs)} cases kept, witness={wit})")
+        what = by_id[fid]["what"] if fid in by_id else "combination of listed findings"
+        print(f"KNOWN-FINDING: property={pid} {fid} {what} ({len(vs)} cases kept, witness={wit})")
     lines = 0
     for (sub, desc), vs in sorted(new.items(), key=lambda kv: (str(kv[0][0]), str(kv[0][1]))):
         for v in vs[:MAX_REPLAYS_PER_DESCRIPTOR]:
